@@ -34,6 +34,9 @@ ENCODINGS = {
     # the array gets numpy's minimal string width: a declared class that has
     # not been observed yet may be longer than every entry of y
     "str_grow": (["a", "bb", "cccc"], "zz", "U"),
+    # integer-typed label array with the NaN sentinel: only possible while no
+    # label is missing (the array is float as soon as a NaN is stored)
+    "intarr_nan": ([0, 1, 2], float("nan"), "int_if_complete"),
 }
 REG_SENTINELS = {"float_nan": float("nan"), "num_m999": -999.0}
 
@@ -42,6 +45,8 @@ def encode_labels(yid, enc, K=None):
     """class ids / None -> (y array, classes list, missing_label)."""
     labels, missing, dtype = ENCODINGS[enc]
     vals = [missing if v is None else labels[int(v)] for v in yid]
+    if dtype == "int_if_complete":
+        dtype = int if all(v is not None for v in yid) else float
     if dtype is object:
         y = np.empty(len(vals), dtype=object)
         for i, v in enumerate(vals):
@@ -293,7 +298,8 @@ POOL_ENTRIES = [
     E("Falcun", "Falcun", {}, ("clf", "pwc"), sw=None, sel="sample"),
     E("GreedySamplingX", "GreedySamplingX", {}, None, task="any",
       sw="row0", arb_idx=True,
-      alt=[{"metric": "rbf", "metric_dict": {"gamma": 0.5}}]),
+      alt=[{"metric": "cityblock"},
+           {"metric": "euclidean", "metric_dict": {}}]),
     E("GreedySamplingTarget[GSi]", "GreedySamplingTarget", {"method": "GSi"},
       ("reg", "nic"), task="reg", sw="row0", arb_idx=True),
     E("GreedySamplingTarget[GSy]", "GreedySamplingTarget", {"method": "GSy"},
@@ -304,12 +310,19 @@ POOL_ENTRIES = [
       ("reg", "nic"), task="reg", sw="full", arb_idx=True, weight=0.5),
     E("ExpectedModelVarianceReduction", "ExpectedModelVarianceReduction", {},
       ("reg", "nic"), task="reg", sw="full", arb_idx=True, weight=0.5,
-      alt=[{"integration_dict": {"method": "assume_linear"}}]),
+      alt=[{"integration_dict": {"method": "assume_linear"}},
+           {"integration_dict": {"method": "monte_carlo",
+                                 "n_integration_samples": 4}}]),
     E("KLDivergenceMaximization", "KLDivergenceMaximization", {},
       ("reg", "nic"), task="reg", sw="full", arb_idx=True, weight=0.4,
       alt=[{"integration_dict_target_val": {"method": "assume_linear"},
             "integration_dict_cross_entropy": {
-                "method": "gauss_hermite", "n_integration_samples": 3}}]),
+                "method": "gauss_hermite", "n_integration_samples": 3}},
+           {"integration_dict_target_val": {"method": "assume_linear"},
+            "integration_dict_cross_entropy": {
+                "method": "monte_carlo", "n_integration_samples": 4}},
+           {"integration_dict_target_val": {
+               "method": "monte_carlo", "n_integration_samples": 4}}]),
     E("RegressionTreeBasedAL[random]", "RegressionTreeBasedAL",
       {"method": "random"}, ("reg", "tree"), task="reg", sw=None),
     E("RegressionTreeBasedAL[diversity]", "RegressionTreeBasedAL",
@@ -341,6 +354,12 @@ WRAPPER_ENTRIES = [
          init={"n_jobs": "$n_jobs",
                "parallel_dict": {"backend": "threading"}}),
 ]
+
+# strategies whose query evaluates on / allocates from the unlabeled samples
+# of (X, y) and documents a rejection when there is none
+NEEDS_UNLABELED = {"ExpectedModelOutputChange",
+                   "ExpectedModelVarianceReduction",
+                   "KLDivergenceMaximization", "RegressionTreeBasedAL"}
 
 # strategies that work with any SkactivemlClassifier (predict_proba only)
 ANY_CLF = {"UncertaintySampling", "ContrastiveAL", "Clue", "DropQuery",
@@ -480,9 +499,17 @@ def build_strategy(name, data, case, seed=None, defaults=False):
             qk["reg"] = make_reg(key, data["missing"], opts)
         elif kind == "discriminator":
             from skactiveml.classifier import ParzenWindowClassifier
-            qk["discriminator"] = ParzenWindowClassifier(
-                metric_dict={"gamma": opts.get("gamma", 1.0)},
-                random_state=0)
+            if opts.get("disc_preconfigured"):
+                # a caller that already set the discriminator up for the
+                # labeled (0) vs. unlabeled (1) task
+                qk["discriminator"] = ParzenWindowClassifier(
+                    classes=[0, 1], missing_label=-1,
+                    metric_dict={"gamma": opts.get("gamma", 1.0)},
+                    random_state=0)
+            else:
+                qk["discriminator"] = ParzenWindowClassifier(
+                    metric_dict={"gamma": opts.get("gamma", 1.0)},
+                    random_state=0)
     sw = opts.get("sample_weight")
     if sw is not None and e["sample_weight"]:
         qk["sample_weight"] = np.array(sw, dtype=float)
